@@ -18,7 +18,7 @@ func init() {
 		Assumptions: []string{"fault model of DESIGN.md 2.4 (no write error after the peer processed the bytes, no partial writes)", "identical subscribe/unsubscribe requests are matched by count", "runs in which two in-flight messages got the same packet id (ids are re-randomised per connection) are skipped as ambiguous"},
 		Gen: func(tier string, seed int64) []fw.Case {
 			return genRetry(retrySpec{
-				Workloads:   []string{"q1x3", "q2x2", "mixed", "pre", "waits", "outage", "outage2", "preset", "subs1", "idlecut"},
+				Workloads:   []string{"q1x3", "q2x2", "mixed", "pre", "waits", "outage", "outage2", "preset", "subs1", "idlecut", "echo"},
 				Configs:     withClients(cfgs(pick(tier, []string{"A"}, allMethods), []string{"keep", "lose"}, []bool{false}), 2, "retry", "retry-retryfirst"),
 				Singles:     true,
 				Pairs:       pick(tier, nil, []string{"q1x3", "q2x2", "pre"}),
@@ -49,7 +49,7 @@ func init() {
 		Assumptions: []string{"exactly-once is only asserted when the broker kept the session", "a PUBCOMP that arrives together with the cut may legitimately be followed by one more PUBREL (select race in the library)"},
 		Gen: func(tier string, seed int64) []fw.Case {
 			return genRetry(retrySpec{
-				Workloads:   []string{"q2x1", "q2x2", "q2x3", "q2mix", "mixed", "preset"},
+				Workloads:   []string{"q2x1", "q2x2", "q2x3", "q2mix", "mixed", "preset", "echo"},
 				Configs:     withClients(cfgs(allMethods, []string{"keep"}, []bool{false}), 1, "retry"),
 				Singles:     true,
 				Pairs:       pick(tier, []string{"q2x1", "q2x2"}, []string{"q2x1", "q2x2", "q2x3", "q2mix"}),
@@ -122,7 +122,7 @@ func init() {
 		Assumptions: []string{"DUP is defined on attempts: a PUBLISH whose local Write failed counts as first transmission", "after a failed PUBREL write the library falls back to PUBLISH(dup)", "messages identified by payload tag, never by id"},
 		Gen: func(tier string, seed int64) []fw.Case {
 			return genRetry(retrySpec{
-				Workloads:   []string{"q1x3", "q2x2", "q2x3", "q2mix", "mixed", "preset", "outage"},
+				Workloads:   []string{"q1x3", "q2x2", "q2x3", "q2mix", "mixed", "preset", "outage", "echo"},
 				Configs:     withClients(cfgs(allMethods, []string{"keep", "lose"}, []bool{false})[:scale(tier, 2, 4)], 1, "retry"),
 				Singles:     true,
 				Pairs:       pick(tier, []string{"q2x2"}, []string{"q2x2", "q2x3", "preset"}),
